@@ -25,6 +25,8 @@ for pid in ARGS:
             cands = [fid] if fid in commit_of else [f for f in commit_of if f.startswith(fid)]
             if fid in ("C12g", "C12h"):
                 cands = [f for f in commit_of if f == "C12gh"]
+            if fid == "C14f":
+                cands = [f for f in commit_of if f in ("C14f", "C14g")]
             if fid in ("C17", "C19b"):
                 cands = [f for f in commit_of if f == "C17"]
             if cands:
